@@ -16,14 +16,17 @@ rm -rf "$out"; git -C /repo worktree remove --force "$wt" >/dev/null 2>&1
 git -C /repo worktree add -q --detach "$wt" HEAD || exit 3
 if [ -f "$what" ]; then p=$(realpath "$what"); else p=$(mktemp); git -C /repo show "$what" > "$p"; fi
 if ! git -C "$wt" apply $rev "$p"; then echo "campaign $name: patch does not apply"; git -C /repo worktree remove --force "$wt"; exit 3; fi
-fired=""
+fired=""; broken=""
 for id in $ids; do
   o=$(cd /verif && VERIF_REPO="$wt" VERIF_OUT="$out" ./run.sh $id $tier 2>&1); rc=$?
-  if [ $rc -ne 0 ]; then
+  if [ $rc -eq 1 ]; then
     fired="$fired $id"
-    echo "  $id rc=$rc: $(echo "$o" | grep -E '^  violated|^BROKEN' | head -3 | cut -c1-260 | tr '\n' '|')"
+    echo "  $id rc=$rc: $(echo "$o" | grep -E '^  violated' | head -3 | cut -c1-260 | tr '\n' '|')"
+  elif [ $rc -ne 0 ]; then
+    broken="$broken $id"
+    echo "  $id rc=$rc: $(echo "$o" | grep -E '^BROKEN|error|cannot' | head -3 | cut -c1-260 | tr '\n' '|')"
   fi
 done
-echo "CAMPAIGN $name ($tier) fired:${fired:- none}"
+echo "CAMPAIGN $name ($tier) fired:${fired:- none}${broken:+ BROKEN:$broken}"
 git -C /repo worktree remove --force "$wt"
 rm -rf "$out" /verif/bin/vcheck-????????* /verif/bin/vcheck-race-????????* 2>/dev/null
